@@ -68,7 +68,7 @@ var postFuncs = []func(*url.Url, string) string{
 	func(u *url.Url, h string) string { _ = u.Pathname(); return strings.TrimPrefix(h, "www.") },
 }
 
-var defSchemes = []string{"http", "file", "foo", "", "https"}
+var defSchemes = []string{"http", "file", "foo", "", "https", "1", "//", "-x", "ht tp", "http ", ":", "HTTP", "http:", "a\x00"}
 
 // optNames lists every public option (19 parser + 6 canonicalizer).
 var optNames = []string{
